@@ -195,11 +195,54 @@ def _is_sanitizer(m: Any, call: ast.Call, mod: Any, cls: Any) -> Tuple[bool, str
             target = r
     if target is None:
         return False, f"unknown function {src_of(f)}"
+    table = _escape_table(m, target)
+    if table is not None:
+        missing = [repr(k) for k in ("\\", '"', "\n") if k not in table]
+        if missing:
+            return False, f"RAW:{target.qual} leaves {missing} unescaped"
+        bad = sorted(v for v in table.values() if v not in ESCAPES_VALID_EVERYWHERE)
+        if bad:
+            return False, f"BADESC:{target.qual} emits the escape sequence(s) {bad}, which are not valid inside a double-quoted literal of every target language (Go rejects \\' in interpreted strings)"
+        return True, target.qual
     consts = {n.value for n in ast.walk(target.node) if isinstance(n, ast.Constant) and isinstance(n.value, str)}
     missing = [e for e in ESCAPES_NEEDED if e not in consts]
     if missing:
         return False, f"{target.qual} does not map {missing}"
     return True, target.qual
+
+
+ESCAPES_VALID_EVERYWHERE = {"\\\\", '\\"', "\\n", "\\r", "\\t", "\\a", "\\b", "\\f", "\\v"}
+
+
+def _escape_table(m: Any, target: Any) -> Optional[Dict[str, str]]:
+    """char -> emitted escape sequence, when the sanitizer is table driven."""
+    for n in ast.walk(target.node):
+        if isinstance(n, ast.Dict) and n.keys and all(isinstance(k, ast.Constant) and isinstance(v, ast.Constant) for k, v in zip(n.keys, n.values)):
+            return {k.value: v.value for k, v in zip(n.keys, n.values)}
+        if isinstance(n, ast.DictComp) and len(n.generators) == 1:
+            g = n.generators[0]
+            if src_of(g.iter) in ("Lexer.escaping_chars.items()", "self.escaping_chars.items()") and isinstance(g.target, ast.Tuple) and len(g.target.elts) == 2:
+                from .grammar import get_grammar
+
+                esc = get_grammar(m.repo).escaping_chars
+                name_v, char_v = (e.id for e in g.target.elts)
+                out = {}
+                for name, ch in esc.items():
+                    def ev(e: ast.AST) -> Optional[str]:
+                        if isinstance(e, ast.Name):
+                            return name if e.id == name_v else (ch if e.id == char_v else None)
+                        if isinstance(e, ast.Constant) and isinstance(e.value, str):
+                            return e.value
+                        if isinstance(e, ast.BinOp) and isinstance(e.op, ast.Add):
+                            a, b = ev(e.left), ev(e.right)
+                            return None if a is None or b is None else a + b
+                        return None
+                    k, v = ev(n.key), ev(n.value)
+                    if k is None or v is None:
+                        return None
+                    out[k] = v
+                return out
+    return None
 
 
 @rule("C6", "bool/int/string constants are emitted as literals that denote the declared value")
@@ -243,6 +286,10 @@ def c6(repo: Repo) -> RuleResult:
                 verdict, why = _str_flow(m, r.value, param, fs.node, mod, c)
                 if verdict == "raw":
                     f = Finding("C6", fs.rel, r.lineno, fs.qual, src_of(r.value), "a string constant is placed between quotes verbatim: a quote, backslash or newline in it yields a different string or a syntax error in the generated file", witness='const S = "a\\"b\\\\c\\nd"', tag=f"{cn}:str-raw")
+                    f.part = lang
+                    res.bad(f)
+                elif verdict == "badesc":
+                    f = Finding("C6", fs.rel, r.lineno, fs.qual, src_of(r.value), why, witness="const S = \"it's\" compiled to Go: the literal \"it\\'s\" does not compile", tag=f"{cn}:str-badesc")
                     f.part = lang
                     res.bad(f)
                 elif verdict == "unknown":
@@ -334,6 +381,10 @@ def _str_flow(m: Any, e: ast.AST, param: str, fn: ast.AST, mod: Any, cls: Any, d
         ok, why = _is_sanitizer(m, e, mod, cls)
         if ok:
             return "ok", why
+        if why.startswith("BADESC:"):
+            return "badesc", why[7:]
+        if why.startswith("RAW:"):
+            return "raw", why[4:]
         if src_of(f) in ("str", "repr") :
             return ("raw", "") if src_of(f) == "str" else ("unknown", "repr() quoting differs per language")
         return "unknown", why
@@ -341,8 +392,12 @@ def _str_flow(m: Any, e: ast.AST, param: str, fn: ast.AST, mod: Any, cls: Any, d
 
 
 def _combine(vs: List[Tuple[str, str]]) -> Tuple[str, str]:
-    if any(v[0] == "raw" for v in vs):
-        return "raw", ""
+    for v in vs:
+        if v[0] == "badesc":
+            return v
+    for v in vs:
+        if v[0] == "raw":
+            return v
     for v in vs:
         if v[0] == "unknown":
             return v
